@@ -1220,5 +1220,15 @@ struct fpred_t : tracked<K_FN> {
 inline fpred_t fpred(int k, unsigned mask) {
   return fpred_t{k, mask};
 }
+// the same predicate taking its arguments *by value*: an adaptor that forwards the element to the predicate instead of
+// showing it a const view hands a moved-from element downstream (printed as ~id)
+struct fpred_bv_t : fpred_t {
+  using fpred_t::fpred_t;
+  bool operator()(val v) { return fpred_t::operator()(static_cast<const val&>(v)); }
+  bool operator()(val v) const { return const_cast<fpred_bv_t&>(*this)(std::move(v)); }
+};
+inline fpred_bv_t fpred_bv(int k, unsigned mask) {
+  return fpred_bv_t{k, mask};
+}
 
 }  // namespace vf
